@@ -918,6 +918,11 @@ func runScenario(sc cliScenario) (*sched.Result, *cliWorld) {
 					r.Attr = msgContent(e.Message)
 				}
 				w.rec(r)
+				if sc.Opts.Reentrant {
+					// the fallback handler answers what it is handed: it calls back into the client
+					_ = w.client.Indicate(cliRequest(9, 20))
+					_ = w.client.Start(cliRequest(8, 20), func(stun.Event) {})
+				}
 			}))
 		}
 		var err error
